@@ -23,12 +23,15 @@ type seqCheck struct {
 	rule           string
 	restart        bool
 	// conc, when set, is a concurrent (K2) half run after the sequential one
-	conc           func() ([]*sched.Scenario, error)
-	concBoundQ     int
-	concBoundT     int
+	conc       func() ([]*sched.Scenario, error)
+	concBoundQ int
+	concBoundT int
 }
 
 func registerSeq(sc seqCheck) {
+	if sc.conc != nil {
+		concSets[sc.id] = sc.conc
+	}
 	reg.Register(sc.id, func() int {
 		r := ev.Start(sc.id, ev.LevelMC, sc.quick, sc.thor)
 		if len(sc.configs) == 0 {
@@ -129,10 +132,10 @@ func metaAlphabet() []lx.Op {
 
 func featureCombos(keys ...string) [][]lx.LedgerSpec {
 	values := map[string][]string{
-		"ACCOUNT_METADATA_HISTORY":     {"SYNC", "DISABLED"},
-		"TRANSACTION_METADATA_HISTORY": {"SYNC", "DISABLED"},
-		"HASH_LOGS":                    {"SYNC", "ASYNC", "DISABLED"},
-		"MOVES_HISTORY":                {"ON", "OFF"},
+		"ACCOUNT_METADATA_HISTORY":                    {"SYNC", "DISABLED"},
+		"TRANSACTION_METADATA_HISTORY":                {"SYNC", "DISABLED"},
+		"HASH_LOGS":                                   {"SYNC", "ASYNC", "DISABLED"},
+		"MOVES_HISTORY":                               {"ON", "OFF"},
 		"MOVES_HISTORY_POST_COMMIT_EFFECTIVE_VOLUMES": {"SYNC", "DISABLED"},
 	}
 	out := [][]lx.LedgerSpec{{{Name: "l1", Features: map[string]string{}}}}
